@@ -314,3 +314,100 @@ def _c13_history(mode: int, b0: int, b1: int, b2: int) -> bool:
 
 def explain_c13_history(mode, b0, b1, b2):
     return {'mode': MODES[mode], 'batches': [BATCHES[b] for b in (b0, b1, b2)], 'why': _history_run(mode, b0, b1, b2)[1]}
+
+
+# ---- batch sizes far beyond the symbolic bound (stubbed workers, a few completion orders) ---------------------------------------------
+# The order conditions above quantify over every completion order for up to 5 files.  Anything that depends on the NUMBER of files
+# (windows of in-flight tasks, batching) needs large batches; the completion order is then one of a few structured ones.
+
+SCALE_N = [0, 1, 2, 7, 33, 100, 257, 513, 1025, 3000]
+SCALE_ORDERS = ['as submitted', 'reversed', 'interleaved from both ends', 'rotated by a third']
+
+
+def _scale_perm(n, kind):
+    idx = list(range(n))
+    if kind == 1:
+        return idx[::-1]
+    if kind == 2:
+        out = []
+        lo, hi = 0, n - 1
+        while lo <= hi:
+            out.append(lo)
+            if hi != lo:
+                out.append(hi)
+            lo, hi = lo + 1, hi - 1
+        return out
+    if kind == 3:
+        r = n // 3
+        return idx[r:] + idx[:r]
+    return idx
+
+
+def _scale_concrete(n_i, order_i, mode, own, fail_rel):
+    """calc_file_signatures on SCALE_N[n_i] distinct (never opened) files with the stub executor / stub worker of the order conditions."""
+    n = SCALE_N[n_i]
+    files = [SequenceFile(f'/nonexistent/scale/f{i}.fa', 'fasta') for i in range(n)]
+    tags = [np.array([i], dtype='u8') for i in range(n)]
+    pos = {id(f): i for i, f in enumerate(files)}
+    fail = -1 if (fail_rel == 0 or n == 0) else [0, n // 2, n - 1][fail_rel - 1]
+    log = {'made': []}
+
+    def tagger(kspec, file, **kw):
+        i = pos[id(file)]
+        if i == fail:
+            raise Boom(i)
+        return tags[i]
+
+    def mk(kind):
+        def factory(max_workers=None):
+            e = FakeExecutor(log, max_workers)
+            log['made'].append((kind, e))
+            return e
+        return factory
+
+    def fake_as_completed(fs):
+        # as_completed works on the futures it was given when it was called; whatever is submitted later is not in it
+        fs = list(fs)
+        perm = _scale_perm(len(fs), order_i)
+        return [fs[p] for p in perm]
+    saved = (calc.calc_file_signature, calc.ThreadPoolExecutor, calc.ProcessPoolExecutor, calc.as_completed)
+    calc.calc_file_signature, calc.ThreadPoolExecutor, calc.ProcessPoolExecutor, calc.as_completed = tagger, mk('threads'), mk('processes'), fake_as_completed
+    conc = [None, 'threads', 'processes'][mode]
+    caller_exec = None if own else FakeExecutor(log)
+    try:
+        try:
+            res = calc.calc_file_signatures(KSPEC, files, progress=None, concurrency=conc, max_workers=3, executor=caller_exec)
+        except Boom:
+            return (fail >= 0), f'{n} files: spurious failure' if fail < 0 else None
+        except Exception as e:   # noqa
+            return False, f'{n} files, all readable, completion order "{SCALE_ORDERS[order_i]}": raised {type(e).__name__}: {e}'
+        if fail >= 0:
+            return False, f'{n} files: returned although file {fail} failed'
+        if len(res) != n:
+            return False, f'{n} files: {len(res)} signatures returned'
+        for i in range(n):
+            if res[i] is not tags[i]:
+                return False, f'{n} files, completion order "{SCALE_ORDERS[order_i]}": entry {i} is not the signature of file {i} ({res[i]!r})'
+        return True, None
+    finally:
+        calc.calc_file_signature, calc.ThreadPoolExecutor, calc.ProcessPoolExecutor, calc.as_completed = saved
+
+
+def _scale_run(n_i, order_i, mode, own, fail_rel):
+    a = (fork_int(n_i, 0, len(SCALE_N) - 1), fork_int(order_i, 0, len(SCALE_ORDERS) - 1), fork_int(mode, 0, 2), bool(own), fork_int(fail_rel, 0, 3))
+    with NoTracing():
+        return _scale_concrete(*a)
+
+
+def _c13_scale(n_i: int, order_i: int, mode: int, own: bool, fail_rel: int) -> bool:
+    """
+    pre: 0 <= n_i < len(SCALE_N) and 0 <= order_i < len(SCALE_ORDERS) and 0 <= mode <= 2 and 0 <= fail_rel <= 3
+    pre: 'smode' not in P or mode == P['smode']
+    post: _
+    """
+    return _scale_run(n_i, order_i, mode, own, fail_rel)[0]
+
+
+def explain_c13_scale(n_i, order_i, mode, own, fail_rel):
+    return {'files': SCALE_N[n_i], 'completion order': SCALE_ORDERS[order_i], 'concurrency': [None, 'threads', 'processes'][mode], 'own executor': own,
+            'failing file': ['none', 'first', 'middle', 'last'][fail_rel], 'why': _scale_run(n_i, order_i, mode, own, fail_rel)[1]}
